@@ -41,10 +41,10 @@ def takeV3 (toks : Toks) : Option (V3 × Toks) := do
   pure (v, toks)
 
 def takeDate (toks : Toks) : Option (DateArgs × Toks) := do
-  let (fs, toks) ← takeFloats 16 toks
+  let (fs, toks) ← takeFloats 18 toks
   match fs with
-  | [ttt, tut1, jd, day, xp, yp, dx, dy, lod, p106, e106, p4, e4, x, y, s] =>
-    pure (⟨ttt, tut1, jd, day, xp, yp, dx, dy, lod, p106, e106, p4, e4, x, y, s⟩, toks)
+  | [ttt, tut1, jd, day, xp, yp, dx, dy, lod, p106, e106, p4, e4, x, y, s, eb106, eb4] =>
+    pure (⟨ttt, tut1, jd, day, xp, yp, dx, dy, lod, p106, e106, p4, e4, x, y, s, eb106, eb4⟩, toks)
   | _ => none
 
 def takeExtra (toks : Toks) : Option (Extra × Toks) := do
@@ -72,7 +72,7 @@ def names : List String := Generated.orientNames
 def ser80 (toks : Toks) : Option String := do
   let (ts, toks) ← takeCounted (takeRow 1) toks
   let (rows, _) ← takeCounted (takeRow 9) toks
-  pure (fsToStr (ts.flatMap (fun t => let r := nutSeries80 (t.headD 0) rows; [r.1, r.2])))
+  pure (fsToStr (ts.flatMap (fun t => let r := nutSeries80 (t.headD 0) rows; [epsBar80 (t.headD 0), r.1, r.2])))
 
 def ser10 (toks : Toks) : Option String := do
   let (ts, toks) ← takeCounted (takeRow 1) toks
@@ -102,12 +102,28 @@ def xf (toks : Toks) : Option String := do
   | some r => pure (fsToStr (r.1.toList ++ r.2.toList))
   | none => pure "value-error"
 
+def takeCall (h : List (Nat × Nat)) (ex : List Extra) (toks : Toks) : Option (Call × Toks) := do
+  let (text, toks) ← takeNat toks
+  let (D, toks) ← takeDate toks
+  let ((a, b), toks) ← takePair toks
+  pure (⟨text, D, Generated.orientHist ++ h, ex, a, b⟩, toks)
+
+/-- a whole history of `Orientation.convert_to` requests in one line: the `_nutation` memo is threaded through the calls -/
+def seq (toks : Toks) : Option String := do
+  let (h, toks) ← takeCounted takePair toks
+  let (ex, toks) ← takeCounted takeExtra toks
+  let (calls, _) ← takeCounted (takeCall h ex) toks
+  let rs := sessionRun names [] calls
+  pure (" ".intercalate (rs.map (fun r => match r with | some m => fsToStr m.toList | none => "E")))
+
 /--
-* `c02ser80 <n> <ttt>… <nrows> <a1..a5 A B C D>…`                → n × (Δψ, Δε) in degrees
+* `c02seq <nH> (a b)… <nE> (child parent 9 floats)… <ncalls> (<text id> <18 date floats> <a> <b>)…` → per call 18 floats or `E`
+  (the process starts with an empty `_nutation` memo; text ids identify `repr(date)`)
+* `c02ser80 <n> <ttt>… <nrows> <a1..a5 A B C D>…`                → n × (ε̄, Δψ, Δε) in degrees
 * `c02ser10 <n> <ttt>… <nblocks> (<tab> <j> <nrows> <16 floats>…)…` → n × (X, Y, s+XY/2) in arcsec
 * `c02lof <tnw 0|1> <p> <v>` → 9 floats;  `c02topo <lat> <lon>` → 9;  `c02geod <lat> <lon> <alt>` → 6
-* `c02conv <16 date floats> <nH> (a b)… <nE> (child parent 9 floats)… <a> <b>` → 18 floats (r block, b block)
-* `c02xf   <16 date floats> <nH> … <nE> … <nCH> (a b)… <nCL> (child parent ori 6 floats)… <oa> <ca> <ob> <cb> <p> <v>` → 6 floats
+* `c02conv <18 date floats> <nH> (a b)… <nE> (child parent 9 floats)… <a> <b>` → 18 floats (r block, b block)
+* `c02xf   <18 date floats> <nH> … <nE> … <nCH> (a b)… <nCL> (child parent ori 6 floats)… <oa> <ca> <ob> <cb> <p> <v>` → 6 floats
 -/
 def handle : List String → Option String
   | "c02ser80" :: rest => some ((ser80 rest).getD "bad-op")
@@ -126,6 +142,7 @@ def handle : List String → Option String
     | _ => "bad-op"
   | "c02conv" :: rest => some ((conv rest).getD "bad-op")
   | "c02xf" :: rest => some ((xf rest).getD "bad-op")
+  | "c02seq" :: rest => some ((seq rest).getD "bad-op")
   | _ => none
 
 end BeyondVerif.Drv.C02
